@@ -290,6 +290,33 @@ def gen_cases(ctx):
     return cases
 
 
+LINK_SUFFIX = b'~lnk'
+
+
+def with_symlinks(case, rng):
+    """the same tree with some entries of the domain directory reached through a symbolic link: `name` becomes a link to
+    `name~lnk`, which holds what `name` held.  A mailbox directory or .qmail file behind a link is still that mailbox
+    (seeded change c13-m10 opened directories with O_NOFOLLOW).  The model line stays the unlinked tree."""
+    f = case.split(' ')
+    if len(f) != 10 or f[0] != 'ue' or f[7] == '-':
+        return case
+    out = []
+    for e in f[7].split(','):
+        n, k, c = e.split(':', 2)
+        name = bytes.fromhex(n) if n != '-' else b''
+        if k in ('d', 'f') and name and len(name) + len(LINK_SUFFIX) <= 255 and rng.random() < 0.5:
+            out.append('%s:%s:%s' % (hexs(name + LINK_SUFFIX), k, c))
+            out.append('%s:l:%s' % (n, hexs(name + LINK_SUFFIX)))
+        else:
+            out.append(e)
+    f[7] = ','.join(out)
+    return ' '.join(f)
+
+
+def strip_links(case, out):
+    return out.replace(LINK_SUFFIX.hex(), '')
+
+
 def corpus_files():
     """[(file name, [protocol lines])]: every corpus file is its own job, so that each past witness is reported by itself"""
     cdir = os.path.join(vlib.VERIF, 'corpus', 'C13')
@@ -388,6 +415,13 @@ def run(ctx):
             res = vlib.differential(ctx, 'user_exists', cmd, cases, pred=pred, known_class=known_class,
                                     nontrivial=lambda c, o: 'opened=-' not in o,
                                     corr_name='model QsmtpModel.Vpop.userExists/getfile vs vpop.c:user_exists + getfile.c:getfile on real directory trees')
+            # the structured cases once more with half of the entries behind symbolic links
+            lrng = __import__('random').Random(ctx.seed * 7919 + 13)
+            sub = [c for c in cases if ':d:' in c.split(' ')[7] or ':f:' in c.split(' ')[7]]
+            sub = lrng.sample(sub, min(len(sub), 3000 if ctx.quick() else 40000))
+            linked = {c: with_symlinks(c, lrng) for c in sub}
+            vlib.differential(ctx, 'user_exists-symlinks', cmd, sub, hline=lambda c: linked[c], canon_h=strip_links, pred=pred, known_class=known_class,
+                              corr_name='model QsmtpModel.Vpop.userExists/getfile vs vpop.c:user_exists + getfile.c:getfile on real directory trees with symbolic links')
             for c, ho, mo in res:          # distribution actually produced: return values, which filterconf level was read
                 t = dict(x.split('=', 1) for x in ho.split() if '=' in x)
                 r = t.get('r', 'FAULT')
